@@ -153,6 +153,9 @@ func (te *TypeEnv) structOf(t types.Type) *structInfo {
 	for i := 0; i < st.NumFields(); i++ {
 		f := st.Field(i)
 		sel := fmt.Sprintf("f%d_%s", id, sanitize(f.Name()))
+		if f.Name() == "_" {
+			sel = fmt.Sprintf("f%d_blank%d", id, i)
+		}
 		si.fields = append(si.fields, sel)
 		si.fnames = append(si.fnames, f.Name())
 		si.ftypes = append(si.ftypes, f.Type())
